@@ -290,3 +290,99 @@ def oracle(seed, tier):
     finally:
         shutil.rmtree(tmpdir, ignore_errors=True)
     return res
+
+
+# ---------------------------------------------------------------------------
+# one manager, many calls: validation must not depend on what was accepted before
+
+def _hist_call(kind, tm, legacy, extra, tmpdir):
+    if kind == 'upload':
+        return tm.upload(io.BytesIO(DATA), 'b', 'k2', extra_args=dict(extra)).result()
+    if kind == 'download':
+        return tm.download('b', 'k', io.BytesIO(), extra_args=dict(extra)).result()
+    if kind == 'copy':
+        return tm.copy({'Bucket': 'sb', 'Key': 'sk'}, 'b', 'k2', extra_args=dict(extra)).result()
+    if kind == 'delete':
+        return tm.delete('b', 'k', extra_args=dict(extra)).result()
+    if kind == 'legacy-upload':
+        path = os.path.join(tmpdir, 'src')
+        with open(path, 'wb') as f:
+            f.write(DATA)
+        return legacy.upload_file(path, 'b', 'k2', extra_args=dict(extra))
+    if kind == 'legacy-download':
+        return legacy.download_file('b', 'k', os.path.join(tmpdir, 'dst'), extra_args=dict(extra))
+    raise AssertionError(kind)
+
+
+HIST_KINDS = {'upload': 'ALLOWED_UPLOAD_ARGS', 'download': 'ALLOWED_DOWNLOAD_ARGS', 'copy': 'ALLOWED_COPY_ARGS',
+              'delete': 'ALLOWED_DELETE_ARGS', 'legacy-upload': 'legacy-up', 'legacy-download': 'legacy-down'}
+
+
+def history_oracle(seed, tier):
+    """Sequences of transfers through ONE TransferManager and ONE S3Transfer: at every step a name
+    outside that method's allow-list is rejected before any request, whatever was accepted before;
+    a legal call succeeds and sends nothing a botocore shape does not have."""
+    from s3transfer import S3Transfer, TransferConfig as LegacyConfig
+    res = OracleResult('C15')
+    rng = rng_for(seed, 'args-history')
+    sh = shapes()
+    allowed = {k: allowed_names(v) for k, v in HIST_KINDS.items()}
+    union = sorted(set().union(*allowed.values()))
+    tmpdir = tempfile.mkdtemp(prefix='s3v-argsh-')
+    try:
+        for _ in range(40 if tier == 'quick' else 1500):
+            fake = FakeS3()
+            fake.objects[('b', 'k')] = DATA
+            fake.objects[('sb', 'sk')] = DATA
+            tm = _tm(fake, multipart_threshold=100 if rng.random() < 0.5 else 5)
+            legacy = S3Transfer(fake, LegacyConfig(multipart_threshold=100, max_concurrency=1))
+            hist = []
+            accepted_sets = []
+            try:
+                for _step in range(rng.randrange(2, 7)):
+                    kind = rng.choice(list(HIST_KINDS))
+                    r = rng.random()
+                    if accepted_sets and r < 0.5:
+                        names = list(rng.choice(accepted_sets))       # exactly a set of names seen before
+                    elif r < 0.8:
+                        names = rng.sample(allowed[kind], rng.randrange(0, 3))
+                    else:
+                        names = rng.sample(union, rng.randrange(1, 3))
+                    fo = [n for n in names if n in FO]
+                    for n in fo[1:]:
+                        names.remove(n)
+                    extra = [(n, value_for(n)) for n in names]
+                    legal = all(n in allowed[kind] for n in names)
+                    fake.objects[('b', 'k')] = DATA      # a delete earlier in the history removed it
+                    before = len(fake.requests())
+                    err = None
+                    try:
+                        _hist_call(kind, tm, legacy, extra, tmpdir)
+                    except Exception as e:      # noqa
+                        err = e
+                    new = fake.requests()[before:]
+                    hist.append({'method': kind, 'extra_args': dict(extra)})
+                    res.evaluations += 1
+                    wit = {'history': list(hist)}
+                    if legal:
+                        accepted_sets.append(tuple(names))
+                        if err is not None:
+                            res.violation('history:legal-call-failed:%s' % kind, wit, '%s with allowed arguments raised %r' % (kind, err))
+                        for rq in new:
+                            op = PY2OP[rq['op']]
+                            unknown = [k for k in rq['args'] if k not in sh[op]]
+                            if unknown and op != 'AbortMultipartUpload':
+                                res.violation('history:unknown-arg:%s:%s' % (kind, op), wit, '%s received unknown parameter %s' % (op, unknown))
+                    else:
+                        bad = [n for n in names if n not in allowed[kind]]
+                        if not isinstance(err, ValueError) or new:
+                            res.violation('history:unknown-not-rejected:%s' % kind, wit,
+                                          '%s with %s outside its allow-list: error %r, %d requests made' % (kind, bad, err, len(new)))
+                    res.nontrivial.add((kind, legal, len(hist) > 1, tuple(sorted(names)) in {tuple(sorted(a)) for a in accepted_sets[:-1]}))
+            finally:
+                tm.shutdown()
+            if len(res.samples) < 2:
+                res.samples.append({'history': hist})
+    finally:
+        shutil.rmtree(tmpdir, ignore_errors=True)
+    return res
